@@ -81,7 +81,9 @@ fn build_pki(topo: &'static str, slot: usize) -> Pki {
     let (ca, chain_tail) = if topo == "3-level" {
         let ck = k(KeyKind::P256, 1);
         let c = sub_ca(&format!("c37 {topo} Issuing CA"), &ck);
-        let tail = vec![c.der.clone()];
+        // x5chain = signer, issuing CA, root: three certificates, so that "the signer's issuer" (chain[1])
+        // and "the last certificate of the chain" are different certificates
+        let tail = vec![c.der.clone(), root.der.clone()];
         (Ent { cert: c, key: ck }, tail)
     } else {
         (Ent { cert: root.clone(), key: root_k.clone() }, vec![root.der.clone()])
